@@ -6,7 +6,7 @@ The host supplies hooks for domain-specific paths, fields, calls and method call
 rule built on it fails closed.  Undecidable branches (symbolic scrutinee) also raise Anchor: the abstract inputs are chosen by the
 caller so that every branch the reference cares about is decided."""
 from .core import Anchor
-from .tree import int_of, is_node, path_of, show, unblock
+from .tree import int_of, is_node, path_of, show, unblock, walk
 
 NONE = ("none",)
 UNIT = ("unit",)
@@ -34,6 +34,7 @@ class SymEval:
         self.h = hooks
         self.what = what
         self.depth = 0
+        self.hint = {}          # id(expression node) -> type text expected of it (let annotation / function return type)
 
     def fail(self, msg, e=None):
         raise Anchor("%s: %s%s" % (self.what, msg, (": " + show(e)[:90]) if e is not None else ""))
@@ -41,19 +42,47 @@ class SymEval:
     # ------------------------------------------------------------------ entry
     def run(self, f, args):
         env = args          # the caller may inspect the environment afterwards (out-parameters)
+        self.note_ret(f)
         try:
             return self.block(f["body"], env)
         except Return as r:
             return r.v
 
+    def note_ret(self, f):
+        """remember which expressions produce the function's return value (tail expression, `return e`)"""
+        ret = (f.get("sig") or {}).get("ret")
+        if not isinstance(ret, str):
+            return
+        body = f["body"]
+        if body[1] and body[1][-1][0] == "expr" and not body[1][-1][2]:
+            self.hint[id(body[1][-1][1])] = ret
+        for n in walk(body):
+            if n[0] == "return" and n[1] is not None:
+                self.hint[id(n[1])] = ret
+
     # ------------------------------------------------------------------ statements
     def block(self, b, env):
         env = dict(env) if False else env
         r = UNIT
+        wbs = []
         for s in b[1]:
+            names = {n[1] for n in walk(s) if n[0] == "path"} if wbs else ()
+            pending = [fn for name, fn in wbs if name in names]
+            try:
+                r = self.stmt(s, env, wbs)
+            finally:
+                for fn in pending:
+                    fn()
+        return r
+
+    def stmt(self, s, env, wbs):
+        r = UNIT
+        if True:
             if s[0] == "local":
                 if s[3] is None:
-                    continue
+                    return r
+                if isinstance(s[2], str):
+                    self.hint[id(s[3])] = s[2]
                 v = self.ev(s[3], env)
                 m = self.match_pat(s[1], v, env)
                 if m is None:
@@ -63,6 +92,10 @@ class SymEval:
                         self.fail("refutable let without else", s[1])
                     self.ev(s[4], env)
                     self.fail("let-else branch does not diverge", s[4])
+                wb = self.writeback(s[1], s[3], env)
+                if wb:
+                    nm = [n for n in walk(s[1]) if n[0] == "p_ident"]
+                    wbs.append((nm[-1][1], wb))
                 r = UNIT
             elif s[0] == "expr":
                 r = self.ev(s[1], env)
@@ -72,7 +105,7 @@ class SymEval:
                 it = s[1]
                 if isinstance(it, dict) and it.get("kind") in ("const", "static") and it.get("init") is not None:
                     env[it["name"]] = self.ev(it["init"], env)
-                continue
+                return r
             else:
                 self.fail("statement kind %s" % s[0])
         return r
@@ -188,7 +221,11 @@ class SymEval:
                 r2 = {"+": a + b, "-": a - b, "*": a * b, "<": a < b, "<=": a <= b, ">": a > b, ">=": a >= b, "<<": a << b if b < 64 else None,
                       ">>": a >> b if b < 64 else None, "|": a | b, "&": a & b, "/": a // b if b else None, "%": a % b if b else None}.get(op)
                 if r2 is None:
+                    if op in ("/", "%") and b == 0:
+                        raise Panic("division by zero")
                     self.fail("integer operator", e)
+                if op in ("+", "*") and r2 >= 2 ** 64:
+                    raise Panic("arithmetic overflow")
                 return r2
             self.fail("binary operator on symbolic values", e)
         if k == "assign":
@@ -210,6 +247,10 @@ class SymEval:
                         raise Panic("index %d out of range in assignment" % i)
                     items[i] = v
                     env[path_of(e[1][1])] = ("list", items)
+                    return UNIT
+                lv = self.lvalue(e[1], env)
+                if lv is not None:
+                    lv[1](v)
                     return UNIT
                 self.fail("assignment", e)
             return UNIT
@@ -238,6 +279,11 @@ class SymEval:
                         raise Panic("index %d out of range" % i)
                     items[i] = ("opassign", e[1], items[i], v)
                     env[path_of(e[2][1])] = ("list", items)
+                    return UNIT
+                lv = self.lvalue(e[2], env)
+                if lv is not None:
+                    g, st = lv
+                    st(self.arith(e[1], g(), v, e))
                     return UNIT
                 self.fail("compound assignment", e)
             return UNIT
@@ -282,6 +328,7 @@ class SymEval:
                 ps = [q[0] for q in fn["sig"]["params"] if q[0] != "self"]
                 if len(ps) == len(args):
                     self.depth += 1
+                    self.note_ret(fn)
                     try:
                         try:
                             return self.block(fn["body"], dict(zip(ps, args)))
@@ -302,7 +349,12 @@ class SymEval:
                 if m is None:
                     self.fail("undecided if-let", c)
                 if m:
-                    return self.ev(e[2], env)
+                    wb = self.writeback(c[1], c[2], env)
+                    try:
+                        return self.ev(e[2], env)
+                    finally:
+                        if wb:
+                            wb()
                 return self.ev(e[3], env) if e[3] is not None else UNIT
             v = self.ev(c, env)
             if not isinstance(v, bool):
@@ -326,7 +378,12 @@ class SymEval:
                             env.clear()
                             env.update(saved)
                             continue
-                    return self.ev(body, env)
+                    wb = self.writeback(pat, e[1], env)
+                    try:
+                        return self.ev(body, env)
+                    finally:
+                        if wb:
+                            wb()
                 env.clear()
                 env.update(saved)
             self.fail("no match arm applies", e)
@@ -380,6 +437,8 @@ class SymEval:
             it = self.ev(e[2], env)
             if isinstance(it, tuple) and it[0] == "chunks":
                 it = ("list", it[1])
+            if isinstance(it, tuple) and it[0] == "lazy":
+                it = ("list", LazyItems(self, it))
             if not (isinstance(it, tuple) and it[0] == "list"):
                 self.fail("for over a non-list %r" % (it,), e[2])
             for item in it[1]:
@@ -394,9 +453,120 @@ class SymEval:
             return UNIT
         if k in ("vec", "array"):
             return ("list", [self.ev(x, env) for x in e[1]])
+        if k == "range" and e[1] is not None and e[2] is not None:
+            lo, hi = self.ev(e[1], env), self.ev(e[2], env)
+            if isinstance(lo, int) and isinstance(hi, int):
+                return ("list", list(range(lo, hi + 1 if e[3] else hi)), "range")
+            self.fail("range with symbolic bounds", e)
+        if k == "paren":
+            return self.ev(e[1], env)
+        if k == "unsafe":
+            return self.ev(e[1], env)
         if k == "struct":
-            return ("struct", e[1].split("::")[-1], {fl: self.ev(x, env) for fl, x in e[2]})
+            sname = e[1].split("::")[-1]
+            if sname == "Self":
+                sname = getattr(self.h, "self_ty", None) or sname
+            return ("struct", sname, {fl: self.ev(x, env) for fl, x in e[2]})
         self.fail("unrecognised expression", e)
+
+    def lvalue(self, e, env):
+        """(get, set) for a place expression: local, struct field, list element, deref, Option/Result payload via as_mut()/unwrap()"""
+        e = unblock(e)
+        k = e[0]
+        if k == "paren":
+            return self.lvalue(e[1], env)
+        if k == "ref" or (k == "unary" and e[1] == "*"):
+            return self.lvalue(e[2], env)
+        if k == "path" and e[1] in env:
+            name = e[1]
+            return (lambda: env[name]), (lambda v: env.__setitem__(name, v))
+        if k == "field":
+            base = self.ev(e[1], env)
+            if isinstance(base, tuple) and base[0] == "struct" and e[2] in base[2]:
+                d, f = base[2], e[2]
+                return (lambda: d[f]), (lambda v: d.__setitem__(f, v))
+            return None
+        if k == "mcall" and e[2] in ("as_mut", "as_deref_mut", "by_ref") and not e[3]:
+            return self.lvalue(e[1], env)
+        if k == "mcall" and e[2] in ("unwrap", "expect"):
+            inner = self.lvalue(e[1], env)
+            if inner is None:
+                return None
+            g, st = inner
+
+            def get():
+                v = g()
+                if v == NONE or (isinstance(v, tuple) and v[0] == "err"):
+                    raise Panic("%s on %s" % (e[2], "None" if v == NONE else "Err"))
+                if isinstance(v, tuple) and v[0] in ("some", "ok"):
+                    return v[1]
+                self.fail("payload of an unknown shape", e)
+            return get, (lambda v: st((g()[0], v)))
+        if k == "index":
+            inner = self.lvalue(e[1], env)
+            if inner is None or e[2][0] == "range":
+                return None
+            g, st = inner
+            i = self.ev(e[2], env)
+            if not isinstance(i, int):
+                return None
+
+            def geti():
+                items = g()[1]
+                if i >= len(items):
+                    raise Panic("index %d out of range (len %d)" % (i, len(items)))
+                return items[i]
+
+            def seti(v):
+                items = list(g()[1])
+                if i >= len(items):
+                    raise Panic("index %d out of range (len %d)" % (i, len(items)))
+                items[i] = v
+                st(("list", items))
+            return geti, seti
+        return None
+
+    def writeback(self, pat, scrut, env):
+        """if `pat` mutably borrows the payload of the place `scrut` (ref mut binding, `&mut place`, `place.as_mut()`), return a
+        function that stores the binding's final value back into the place"""
+        s_ = unblock(scrut)
+        while s_[0] == "mcall" and s_[2] in ("unwrap", "expect"):
+            s_ = unblock(s_[1])
+        by_mut = (s_[0] == "ref" and s_[1]) or (s_[0] == "mcall" and s_[2] in ("as_mut", "iter_mut", "as_deref_mut"))
+        inner = pat
+        wrap = None
+        while inner[0] in ("p_ref", "p_type"):
+            inner = inner[2] if inner[0] == "p_ref" else inner[1]
+        if inner[0] == "p_ts" and inner[1].split("::")[-1] in ("Some", "Ok", "Err") and len(inner[2]) == 1:
+            wrap = inner[1].split("::")[-1].lower()
+            inner = inner[2][0]
+            while inner[0] in ("p_ref", "p_type"):
+                inner = inner[2] if inner[0] == "p_ref" else inner[1]
+        if inner[0] != "p_ident" or inner[4] is not None:
+            return None
+        if not (by_mut or (inner[2] and inner[3])):
+            return None
+        lv = self.lvalue(scrut, env)
+        if lv is None:
+            return None
+        name = inner[1]
+        _, st = lv
+        return lambda: st((wrap, env[name]) if wrap else env[name]) if name in env else None
+
+    def arith(self, op, a, b, e):
+        if isinstance(a, int) and isinstance(b, int) and not isinstance(a, bool) and not isinstance(b, bool):
+            r = {"+": a + b, "-": a - b, "*": a * b, "|": a | b, "&": a & b, "<<": a << b if b < 64 else None, ">>": a >> b if b < 64 else None,
+                 "/": a // b if b else None, "%": a % b if b else None}.get(op)
+            if r is None:
+                if op in ("/", "%") and b == 0:
+                    raise Panic("division by zero")
+                self.fail("compound operator", e)
+            if r < 0:
+                raise Panic("arithmetic underflow")
+            if op in ("+", "*") and r >= 2 ** 64:
+                raise Panic("arithmetic overflow")
+            return r
+        return ("opassign", op, a, b)
 
     def set_place(self, place, v, env):
         """assign to a local or to a (nested) field of a local struct value; returns the old value or NotImplemented"""
@@ -429,6 +599,8 @@ class SymEval:
         return True
 
     def apply(self, clo, args):
+        if isinstance(clo, tuple) and clo[0] == "compose":
+            return self.apply(clo[2], [self.apply(clo[1], args)])
         if isinstance(clo, tuple) and clo[0] == "fnref":
             r = self.h.call(clo[1], args, None)
             if r is NotImplemented:
@@ -450,6 +622,37 @@ class SymEval:
         r = self.h.mcall(recv, m, args, e, self)
         if r is not NotImplemented:
             return r
+        if isinstance(recv, tuple) and recv[0] == "list" and len(recv) == 3 and m == "map" and len(args) == 1:
+            return ("lazy", recv[1], args[0])       # adaptor over a range: evaluated on demand, in order
+        if isinstance(recv, tuple) and recv[0] == "lazy":
+            if m == "collect" and not args:
+                tf = (e[4] or "") if len(e) > 4 and isinstance(e[4], str) else ""
+                tf = tf.replace(" ", "").lstrip(":<") or (self.hint.get(id(e)) or "").replace(" ", "")
+                tf = tf.split("::")[-1] if tf.split("<")[0].count("::") else tf
+                out = []
+                for x in recv[1]:
+                    v = self.apply(recv[2], [x])
+                    fallible = v == NONE or (isinstance(v, tuple) and v and v[0] in ("ok", "err", "some"))
+                    if fallible and not tf.startswith("Vec"):
+                        # collect::<Result<_, _>>() / collect::<Option<_>>() (or an un-annotated collect of fallible items, which
+                        # only type-checks into such a container when the surrounding code treats it as one): stop at the first failure
+                        kind = v[0] if v != NONE else "some"
+                        if v == NONE or v[0] == "err":
+                            return v
+                        out.append(v[1])
+                        wrapk = kind
+                        continue
+                    out.append(v)
+                if out and not tf.startswith("Vec") and "wrapk" in locals():
+                    return (wrapk, ("list", out))
+                if not out and tf.startswith(("Result", "Option")):
+                    return ("ok" if tf.startswith("Result") else "some", ("list", []))
+                wrap = "ok" if tf.startswith("Result") else ("some" if tf.startswith("Option") else None)
+                return (wrap, ("list", out)) if wrap else ("list", out)
+            if m == "map" and len(args) == 1:
+                f1, f2 = recv[2], args[0]
+                return ("lazy", recv[1], ("compose", f1, f2))
+            self.fail("method on a lazy iterator", e)
         if isinstance(recv, tuple) and recv[0] == "list":
             items = recv[1]
             name = path_of(e[1])
@@ -541,6 +744,24 @@ class SymEval:
         # Option / Result combinators
         if recv == NONE or (isinstance(recv, tuple) and recv[0] == "some"):
             some = recv[0] == "some"
+            if m in ("replace", "insert", "take", "get_or_insert", "get_or_insert_with"):
+                lv = self.lvalue(e[1], env)
+                if lv is None:
+                    self.fail("Option::%s on something that is not a place" % m, e)
+                if m == "take":
+                    lv[1](NONE)
+                    return recv
+                if m == "replace":
+                    lv[1](("some", args[0]))
+                    return recv
+                if m == "insert":
+                    lv[1](("some", args[0]))
+                    return args[0]
+                if some:
+                    return recv[1]
+                nv = args[0] if m == "get_or_insert" else self.apply(args[0], [])
+                lv[1](("some", nv))
+                return nv
             if m == "is_some":
                 return some
             if m == "is_none":
@@ -654,6 +875,8 @@ class SymEval:
                 return lo <= v <= (hi if pat[3] else hi - 1)
             return None
         if k == "p_tuple":
+            if not pat[1] and v == UNIT:
+                return True
             if isinstance(v, tuple) and v[0] == "tuple" and len(v[1]) == len(pat[1]):
                 res = True
                 for p, x in zip(pat[1], v[1]):
@@ -731,6 +954,17 @@ class SymEval:
 
     def shape(self, v):
         return v == NONE or (isinstance(v, tuple) and v and v[0] in ("some", "ok", "err", "none"))
+
+
+class LazyItems:
+    """items of a lazy adaptor, produced one at a time (so a `?`/break in the loop body stops the evaluation of the rest)"""
+
+    def __init__(self, ev, lazy):
+        self.ev, self.lazy = ev, lazy
+
+    def __iter__(self):
+        for x in self.lazy[1]:
+            yield self.ev.apply(self.lazy[2], [x])
 
 
 def fmtseq(fmt, vals):
